@@ -78,16 +78,122 @@ func c20Wire(c *ctxT, sb *strings.Builder, unknowns *[]string) {
 	fmt.Fprintf(sb, "\n/-- `NewAnteHandler`: first extension option's type URL ↦ handler (`none` = a transaction without extension options) -/\ndef anteRouting : List String := %s\n", leanList(mapStr(routes, leanStr)))
 
 	// ---- app wiring ----
+	// setAnteHandler is TRANSLATED: the two configuration values (`bypass-min-fee.msg-types`, `…msg-max-gas-usage`, read with
+	// cast.ToStringSlice / cast.ToUint64 — absent = [] / 0) flow through whatever statements touch the two locals into the
+	// arguments of NewCheckTxFeees.  `wiredCheckTxFeees cfgTypes cfgMaxGas` is the checker the app installs as a function of
+	// the CONFIGURED values; any defaulting / rewriting in app.go shows up in this definition (unknown shapes become
+	// `unknownNat`), and the theorems about the node's fee rule are stated over it.
 	wired := false
+	var lets []string
+	typesArg, maxArg := "(unknownList \"NewCheckTxFeees not found\")", "(unknownNat \"NewCheckTxFeees not found\")"
+	natExpr := func(e ast.Expr) string {
+		switch x := e.(type) {
+		case *ast.BasicLit:
+			if x.Kind == token.INT {
+				return strings.ReplaceAll(x.Value, "_", "")
+			}
+		case *ast.Ident:
+			if x.Name == "MaxBypassMinFeeMsgGasUsage" {
+				return x.Name
+			}
+		case *ast.SelectorExpr:
+			if norm(x) == "math.MaxUint64" {
+				return "(2 ^ 64 - 1)"
+			}
+		}
+		*unknowns = append(*unknowns, "setAnteHandler: value "+norm(e))
+		return "(unknownNat " + leanStr(norm(e)) + ")"
+	}
 	for _, f := range c.pkg("app") {
-		s := strings.Join(strings.Fields(c.src(f)), " ")
-		if strings.Contains(s, "TxFeeChecker: fxante.NewCheckTxFeees(BypassMinFeeMsgTypes, MaxBypassMinFeeMsgGasUsage).Check") &&
-			strings.Contains(s, "BypassMinFeeMsgTypes := cast.ToStringSlice(appOpts.Get(fxcfg.BypassMinFeeMsgTypesKey))") &&
-			strings.Contains(s, "MaxBypassMinFeeMsgGasUsage := cast.ToUint64(appOpts.Get(fxcfg.BypassMinFeeMsgMaxGasUsageKey))") {
-			wired = true
+		for _, d := range f.Decls {
+			fd, ok := d.(*ast.FuncDecl)
+			if !ok || fd.Body == nil || fd.Name.Name != "setAnteHandler" {
+				continue
+			}
+			readT, readM := false, false
+			touches := func(n ast.Node) bool {
+				t := false
+				ast.Inspect(n, func(m ast.Node) bool {
+					if as, ok := m.(*ast.AssignStmt); ok {
+						for _, l := range as.Lhs {
+							if id, ok := l.(*ast.Ident); ok && (id.Name == "BypassMinFeeMsgTypes" || id.Name == "MaxBypassMinFeeMsgGasUsage") {
+								t = true
+							}
+						}
+					}
+					if ue, ok := m.(*ast.UnaryExpr); ok && ue.Op == token.AND {
+						if id, ok := ue.X.(*ast.Ident); ok && (id.Name == "BypassMinFeeMsgTypes" || id.Name == "MaxBypassMinFeeMsgGasUsage") {
+							t = true
+						}
+					}
+					if ids, ok := m.(*ast.IncDecStmt); ok {
+						if id, ok := ids.X.(*ast.Ident); ok && id.Name == "MaxBypassMinFeeMsgGasUsage" {
+							t = true
+						}
+					}
+					return true
+				})
+				return t
+			}
+			for _, st := range fd.Body.List {
+				src := norm(st)
+				switch {
+				case src == "BypassMinFeeMsgTypes := cast.ToStringSlice(appOpts.Get(fxcfg.BypassMinFeeMsgTypesKey))":
+					readT = true
+					lets = append(lets, "let BypassMinFeeMsgTypes := cfgTypes")
+				case src == "MaxBypassMinFeeMsgGasUsage := cast.ToUint64(appOpts.Get(fxcfg.BypassMinFeeMsgMaxGasUsageKey))":
+					readM = true
+					lets = append(lets, "let MaxBypassMinFeeMsgGasUsage := cfgMaxGas")
+				case touches(st):
+					// `if MaxBypassMinFeeMsgGasUsage == k { MaxBypassMinFeeMsgGasUsage = e }` / `MaxBypassMinFeeMsgGasUsage = e`
+					done := false
+					if is, ok := st.(*ast.IfStmt); ok && is.Init == nil && is.Else == nil && len(is.Body.List) == 1 {
+						if be, ok := is.Cond.(*ast.BinaryExpr); ok && norm(be.X) == "MaxBypassMinFeeMsgGasUsage" {
+							if as, ok := is.Body.List[0].(*ast.AssignStmt); ok && as.Tok == token.ASSIGN && len(as.Lhs) == 1 && len(as.Rhs) == 1 && norm(as.Lhs[0]) == "MaxBypassMinFeeMsgGasUsage" {
+								op := map[token.Token]string{token.EQL: "=", token.NEQ: "≠", token.LSS: "<", token.GTR: ">", token.LEQ: "≤", token.GEQ: "≥"}[be.Op]
+								if op != "" {
+									lets = append(lets, fmt.Sprintf("let MaxBypassMinFeeMsgGasUsage := if MaxBypassMinFeeMsgGasUsage %s %s then %s else MaxBypassMinFeeMsgGasUsage   -- %s", op, natExpr(be.Y), natExpr(as.Rhs[0]), src))
+									done = true
+								}
+							}
+						}
+					}
+					if as, ok := st.(*ast.AssignStmt); ok && !done && as.Tok == token.ASSIGN && len(as.Lhs) == 1 && len(as.Rhs) == 1 && norm(as.Lhs[0]) == "MaxBypassMinFeeMsgGasUsage" {
+						lets = append(lets, fmt.Sprintf("let MaxBypassMinFeeMsgGasUsage := %s   -- %s", natExpr(as.Rhs[0]), src))
+						done = true
+					}
+					if !done {
+						*unknowns = append(*unknowns, "setAnteHandler: "+src)
+						lets = append(lets, fmt.Sprintf("let MaxBypassMinFeeMsgGasUsage := unknownNat %s", leanStr(src)), fmt.Sprintf("let BypassMinFeeMsgTypes := unknownList %s", leanStr(src)))
+					}
+				}
+			}
+			ast.Inspect(fd.Body, func(n ast.Node) bool {
+				if ce, ok := n.(*ast.CallExpr); ok && norm(ce.Fun) == "fxante.NewCheckTxFeees" && len(ce.Args) == 2 {
+					if norm(ce.Args[0]) == "BypassMinFeeMsgTypes" {
+						typesArg = "BypassMinFeeMsgTypes"
+					} else {
+						*unknowns = append(*unknowns, "setAnteHandler: exempt types argument "+norm(ce.Args[0]))
+						typesArg = "(unknownList " + leanStr(norm(ce.Args[0])) + ")"
+					}
+					maxArg = natExpr(ce.Args[1])
+				}
+				return true
+			})
+			wired = readT && readM &&
+				strings.Contains(norm(fd.Body), "TxFeeChecker: fxante.NewCheckTxFeees(") && strings.Contains(norm(fd.Body), ").Check,") &&
+				strings.Contains(norm(fd.Body), "app.SetAnteHandler(fxante.NewAnteHandler(anteOptions))")
 		}
 	}
-	fmt.Fprintf(sb, "\n/-- app.go: `TxFeeChecker: fxante.NewCheckTxFeees(<bypass-min-fee.msg-types>, <bypass-min-fee.msg-max-gas-usage>).Check` -/\ndef appWiresFeeChecker : Bool := %v\n", wired)
+	fmt.Fprintf(sb, "\n/-- app.go `setAnteHandler`: both values are read from the application options, `NewCheckTxFeees(…).Check` is the\n`TxFeeChecker` of the ante handler the app installs -/\ndef appWiresFeeChecker : Bool := %v\n", wired)
+	sb.WriteString("\n/-- the checker the app installs, as a function of the CONFIGURED values (`bypass-min-fee.msg-types`,\n`bypass-min-fee.msg-max-gas-usage`; an absent key reads as `[]` / `0`): `setAnteHandler` translated statement by statement -/\ndef wiredCheckTxFeees (cfgTypes : List String) (cfgMaxGas : Nat) : CheckTxFeees :=\n")
+	if len(lets) == 0 {
+		lets = []string{"let BypassMinFeeMsgTypes := unknownList \"setAnteHandler not found\"", "let MaxBypassMinFeeMsgGasUsage := unknownNat \"setAnteHandler not found\""}
+	}
+	for _, l := range lets {
+		sb.WriteString("  " + l + "\n")
+	}
+	fmt.Fprintf(sb, "  ⟨%s, %s⟩\n", typesArg, maxArg)
 
 	// ---- ValidateModuleName ----
 	re, anchored, matches := "", false, false
